@@ -61,6 +61,7 @@ pub fn gen_dict_program(t: &mut Tape) -> DictProgram {
         // case folding or trimming; or a big dictionary
         let family = t.weighted(&[6, 2, 1, 1, 1]);
         let mut keys: Vec<String> = Vec::new();
+        let mut unstored_spelling: Option<&str> = None;
         match family {
             0 => {
                 let nkeys = 2 + t.draw(5) as usize;
@@ -73,6 +74,18 @@ pub fn gen_dict_program(t: &mut Tape) -> DictProgram {
             }
             1 => {
                 features.push("near-identical keys");
+                // every other time two of the three spellings of one word
+                // are stored and the third is read (see below)
+                if t.chance(1, 2) {
+                    let third = t.draw(3) as usize;
+                    let spellings = ["\"Key\"", "\"key\"", "\"KEY\""];
+                    for (i, k) in spellings.iter().enumerate() {
+                        if i != third {
+                            keys.push(k.to_string());
+                        }
+                    }
+                    unstored_spelling = Some(spellings[third]);
+                }
                 let nkeys = 2 + t.draw(5) as usize;
                 for _ in 0..nkeys {
                     let k = NEAR_KEYS[t.draw(NEAR_KEYS.len() as u32) as usize].to_string();
@@ -159,6 +172,11 @@ pub fn gen_dict_program(t: &mut Tape) -> DictProgram {
             assigned[a].push((key.clone(), v.clone()));
         }
         nkeys_of[a] = used.len();
+        if let Some(k) = unstored_spelling {
+            if !used.iter().any(|u| u == k) {
+                src.push_str(&format!("Say {} at {}\n", ARR[a], k));
+            }
+        }
         // some positional elements too
         for i in 0..t.draw(3) {
             let v = if t.chance(1, 6) {
@@ -240,6 +258,27 @@ pub fn gen_dict_program(t: &mut Tape) -> DictProgram {
             2 => {
                 if t.chance(1, 2) {
                     src.push_str(&format!("Say {}\n", name));
+                } else if !assigned[a].is_empty() && t.chance(1, 2) {
+                    // a key of this array in another spelling: other case,
+                    // padded, trimmed (a key that was never stored, close to
+                    // ones that were)
+                    let stored = assigned[a][t.draw(assigned[a].len() as u32) as usize].0.clone();
+                    let k = match t.draw(5) {
+                        0 => stored.to_lowercase(),
+                        1 => stored.to_uppercase(),
+                        2 => stored.replace('"', "").trim().chars().rev().collect::<String>(),
+                        3 => format!("\"{} \"", stored.trim_matches('"')),
+                        _ => {
+                            let inner = stored.trim_matches('"');
+                            let mut c = inner.chars();
+                            match c.next() {
+                                Some(f) => format!("\"{}{}\"", f.to_uppercase(), c.as_str().to_lowercase()),
+                                None => stored.clone(),
+                            }
+                        }
+                    };
+                    let k = if k.starts_with('"') || assigned[a].iter().any(|(s, _)| *s == k) { k } else { format!("\"{}\"", k) };
+                    src.push_str(&format!("Say {} at {}\n", name, k));
                 } else {
                     let k = *t.pick(KEYS);
                     src.push_str(&format!("Say {} at {}\n", name, k));
@@ -555,6 +594,11 @@ fn warm_up_process() {
         let _ = observe(&src, &input, &cfg);
     }
 }
+
+/// Unusual twins of ordinary values, said, computed and concatenated before
+/// the ordinary ones: the negative zero, a number that is almost a small
+/// integer, text that looks like a number.
+const WARM_UP_TWINS: &str = "Put 0 times -1 into Twin\nSay Twin\nSay \"level \" plus Twin\nSay Twin plus \" level\"\nSay 0.1 plus 0.2\nSay \"n\" plus 0.30000000000000004\nSay 1 over 3 times 3\nSay \"1\" plus 1\nSay 255 plus 1\nSay \"k\" plus 256\n";
 
 const NEIGHBOUR: &str = "Put 0 into Ticks\nWhile Ticks is less than 500000\nBuild Ticks up\n\nSay Ticks\n";
 const NEIGHBOUR_EXPECTED: &str = "Ok, said 500000";
@@ -1078,6 +1122,7 @@ impl Property for C10 {
         // a second buffer, alive at the same time (so at another address), in
         // which nothing but the program itself is ever processed: the clean
         // reference for state keyed by where text lies
+        let warm_up_twins_first = format!("{}{}", WARM_UP_TWINS, WARM_UP);
         let mut clean_buf = String::with_capacity(source.len().max(other_program.len()) + 8);
         // and a third one in which the decoy is the very first thing ever
         // processed, before the program (state of the kind "the first answer
@@ -1094,7 +1139,13 @@ impl Property for C10 {
                 // per thread has been filled by somebody else's values)
                 3 if ci % 8 == 7 => {
                     stats.inc("fault.configured.decoy_warm_up_program_run_first_on_fresh_thread");
-                    Some((WARM_UP, true))
+                    // (in every other scenario the warm-up meets the negative
+                    // zero and other unusual twins of ordinary values first)
+                    if key % 2 == 0 {
+                        Some((WARM_UP, true))
+                    } else {
+                        Some((&warm_up_twins_first, true))
+                    }
                 }
                 1 | 3 => {
                     stats.inc("fault.configured.decoy_same_layout_parsed_first");
